@@ -423,6 +423,7 @@ func runC08(c *Ctx) {
 	runC08EnumLookup(c)
 	runC08Bounds(c)
 	runC08Buffers(c)
+	runC08OneOfPresence(c)
 }
 
 func uniq(a, b string) []string {
